@@ -555,14 +555,47 @@ def H1(F, rep, FL):
                 bad = ('%d updates of %s on a committing path' % (len(bumps), counter), evs)
                 break
             if kind == 'container':
-                names = {x.get('name') for x in walk(bumps[0]['n']) if x.get('k') in ('Member', 'Call')} | \
-                        {x.get('fn') for x in walk(bumps[0]['n']) if x.get('k') == 'Call'}
-                if not ({'internalHeaderSize', 'uncompressedFileSize'} <= names):
-                    bad = ('the update does not add internalHeaderSize() + uncompressedFileSize', evs)
+                b_ = bumps[0]['n']
+                has_hdr = any(x.get('k') == 'Call' and x.get('fn') == 'internalHeaderSize' for x in walk(b_))
+                has_fld = any(x.get('k') == 'Member' and x.get('name') == 'uncompressedFileSize' for x in walk(b_))
+                # uncompressedFile.size() stands for the field only while the size invariant established by
+                # resize(uncompressedFileSize) still holds: nothing called in between may modify the buffer
+                via_size = [x for x in walk(b_) if x.get('k') == 'Call' and x.get('fn') == 'size' and
+                            (member_path(x.get('obj')) or (None,))[-1] == 'uncompressedFile']
+                if not has_fld and via_size:
+                    bi = evs.index(bumps[0])
+                    est = [i for i, e in enumerate(evs[:bi]) if e['ev'] == 'call' and e['n'].get('fn') == 'resize' and
+                           (member_path(e['n'].get('obj')) or (None,))[-1] == 'uncompressedFile' and
+                           (member_path(strip_all_casts(e['n']['args'][0])) or (None,))[-1] == 'uncompressedFileSize']
+                    if est:
+                        clobber = None
+                        for e in evs[est[-1] + 1:bi]:
+                            if e['ev'] == 'call' and e['n'].get('calleeInRoot'):
+                                for c in FL.resolve(e['n']):
+                                    if _modifies_member(c, 'uncompressedFile'):
+                                        clobber = c['name']
+                        has_fld = clobber is None
+                        if clobber:
+                            bad = ('the update adds uncompressedFile.size(), but %s may modify that buffer after it was sized' % short(clobber), evs)
+                            break
+                if not (has_hdr and has_fld):
+                    bad = ('the update does not add internalHeaderSize() + the uncompressed payload size of that container', evs)
                     break
         rep.ob('H1', '%s|%s' % (short(q), counter), bad is None and n > 0, rep.fn_site(fn),
                '%s: %s is updated exactly once per committed %s (%d committing paths)' % (short(q), counter, kind, n) if bad is None and n > 0 else
                '%s: %s' % (short(q), (bad[0] + ': ' + fmt_events(bad[1])) if bad else 'no committing path found'), nontrivial=True)
+
+
+def _modifies_member(fn, name):
+    for n in walk(fn['body']):
+        if n.get('k') == 'Call' and n.get('ck') == 'operator' and n.get('op') == '=' and n.get('args') and (member_path(n['args'][0]) or (None,))[-1] == name:
+            return True
+        if n.get('k') == 'Call' and n.get('fn') in ('resize', 'clear', 'swap', 'assign', 'push_back', 'shrink_to_fit', 'erase') and \
+                (member_path(n.get('obj')) or (None,))[-1] == name:
+            return True
+        if n.get('k') == 'Call' and n.get('callee') == 'std::move' and n.get('args') and (member_path(n['args'][0]) or (None,))[-1] == name:
+            return True
+    return False
 
 
 def _assign_target(n):
